@@ -75,6 +75,7 @@ type FieldDef struct {
 	Req     Req
 	Type    *TypeRef
 	Default *ConstVal
+	Annot   string // rendered after the field, e.g. (go.name = "x")
 }
 
 type EnumItem struct {
@@ -523,6 +524,9 @@ func (p *Program) fieldText(from int, fd *FieldDef) string {
 	s := fmt.Sprintf("%d: %s%s %s", fd.ID, req, p.TypeText(from, fd.Type), fd.Name)
 	if fd.Default != nil {
 		s += " = " + p.ConstText(from, fd.Default)
+	}
+	if fd.Annot != "" {
+		s += " " + fd.Annot
 	}
 	return s
 }
